@@ -56,24 +56,33 @@
 #define SX_STATIC_DIGITS_OK SX_STATIC_DIGITS_IS(__CPROVER_is_fresh)
 #define SX_STATIC_SYMTAB_OK SX_STATIC_SYMTAB_IS(__CPROVER_is_fresh)
 
+/* The two functions that read the tables are proved under the invariant
+ * (targets digit2int / issyminitch, built with -DSX_ENFORCE_LEAF).  Because
+ * the invariant holds in every reachable state (base target + preservation),
+ * their callers use the contracts without re-establishing it at each call. */
+#ifdef SX_ENFORCE_LEAF
+#define SX_LEAF_REQUIRES(p) __CPROVER_requires(p)
+#else
+#define SX_LEAF_REQUIRES(p)
+#endif
+
 /* ---- character classes ------------------------------------------------- */
 
 /* every hexadecimal digit character maps to its value IN EITHER CASE; any
  * other octet maps to 0 (parse_integer_ relies on that for the "#x" prefix) */
 static inline uint64_t digit2int(const char c)
-__CPROVER_requires(SX_STATIC_DIGITS_OK)
+SX_LEAF_REQUIRES(SX_STATIC_DIGITS_OK)
 __CPROVER_assigns()
 __CPROVER_ensures(__CPROVER_return_value == SPEC_SX_DIGITVAL(c))
 ;
 
 static bool issyminitch(const char c)
-__CPROVER_requires(SX_STATIC_SYMTAB_OK)
+SX_LEAF_REQUIRES(SX_STATIC_SYMTAB_OK)
 __CPROVER_assigns()
 __CPROVER_ensures(__CPROVER_return_value == SPEC_SX_ISSYMINIT(c))
 ;
 
 static bool issymch(const char c)
-__CPROVER_requires(SX_STATIC_SYMTAB_OK)
 __CPROVER_assigns()
 __CPROVER_ensures(__CPROVER_return_value == SPEC_SX_ISSYMCH(c))
 ;
@@ -156,7 +165,6 @@ __CPROVER_ensures(IMPLIES(i < n && __CPROVER_return_value < n, !SPEC_SX_ISSPACE(
 /* token class at s[i]; reads only below n */
 static enum sx_what looking_at(const char *s, const size_t n, const size_t i)
 __CPROVER_requires(__CPROVER_r_ok(s, n) && i < n)
-__CPROVER_requires(SX_STATIC_SYMTAB_OK)
 __CPROVER_assigns()
 __CPROVER_ensures((int)__CPROVER_return_value == SPEC_SX_LOOKING_AT(s, n, i))
 ;
@@ -167,7 +175,6 @@ __CPROVER_ensures((int)__CPROVER_return_value == SPEC_SX_LOOKING_AT(s, n, i))
 static struct sx_node *parse_symbol(const char *s, const size_t n, size_t *i)
 __CPROVER_requires(__CPROVER_r_ok(s, n) && __CPROVER_rw_ok(i, sizeof(*i)) && *i < n)
 __CPROVER_requires(SPEC_SX_ISSYMINIT(s[*i]))
-__CPROVER_requires(SX_STATIC_SYMTAB_OK)
 __CPROVER_assigns(*i, g_sx_live)
 __CPROVER_ensures(__CPROVER_old(*i) < *i && *i <= n)
 __CPROVER_ensures(IMPLIES(__CPROVER_old(*i) <= g_k && g_k < *i, SPEC_SX_ISSYMCH(s[g_k])))
@@ -215,21 +222,18 @@ static struct sx_node *parse_integer_(const char *s, const size_t n, size_t *i, 
                                       int (*digitpredicate)(int), uint64_t base)
 __CPROVER_requires(SX_INT_REQUIRES(s, n, i, offset, base))
 __CPROVER_requires(digitpredicate == ((base) == 10 ? isdigit : isxdigit))
-__CPROVER_requires(SX_STATIC_DIGITS_OK)
 __CPROVER_assigns(*i, g_sx_live)
 SX_INT_ENSURES(s, n, i, offset, base)
 ;
 
 static inline struct sx_node *parse_integer(const char *s, const size_t n, size_t *i)
 __CPROVER_requires(SX_INT_REQUIRES(s, n, i, 0, 10))
-__CPROVER_requires(SX_STATIC_DIGITS_OK)
 __CPROVER_assigns(*i, g_sx_live)
 SX_INT_ENSURES(s, n, i, 0, 10)
 ;
 
 static inline struct sx_node *parse_hinteger(const char *s, const size_t n, size_t *i)
 __CPROVER_requires(SX_INT_REQUIRES(s, n, i, 2, 16))
-__CPROVER_requires(SX_STATIC_DIGITS_OK)
 __CPROVER_assigns(*i, g_sx_live)
 SX_INT_ENSURES(s, n, i, 2, 16)
 ;
@@ -257,7 +261,6 @@ SX_INT_ENSURES(s, n, i, 2, 16)
 
 struct sx_parse_result sx_parse_token(const char *s, const size_t n, const size_t i)
 __CPROVER_requires(__CPROVER_r_ok(s, n) && i <= n)
-__CPROVER_requires(SX_STATIC_DIGITS_OK && SX_STATIC_SYMTAB_OK)
 __CPROVER_assigns(g_sx_live)
 __CPROVER_ensures(SX_RV.status == SXS_SUCCESS || SX_RV.status == SXS_FOUND_LIST
     || SX_RV.status == SXS_BROKEN_INTEGER || SX_RV.status == SXS_BROKEN_SYMBOL
